@@ -21,6 +21,7 @@ OpenT below):
   * errno after a stdio call is the parameter <callee>_errno;
   * SC_CHECK_ABORT (c, ..) / SC_CHECK_MPI (r) do not end the slice: the output `ok` (1 at the start) becomes ok && c; SC_ABORT
     sets it to 0: the other outputs are meaningful for ok = 1 only;
+  * `(void) f (..)` with f an effect call is the call (c2g alone treats a cast to void as no statement);
   * a string literal is the number whose little-endian bytes are its characters ("rb" = 0x6272);
   * an enumerator is the constant oc<cfg>_<name>, printed with its value by a C program compiled with the same headers;
   * a value of the enumeration type sc_io_open_mode_t is the integer it denotes.
@@ -144,6 +145,9 @@ def make_OpenT(c2g, sl, prefix, ptr_outs, inout_args, skip_args, used_enums):
             call, lhs, rhs = None, None, None
             if k == "CallExpr":
                 call = s
+            elif k in ("ParenExpr", "CStyleCastExpr") and c2g.skip_parens(s).get("kind") == "CStyleCastExpr" and \
+                    c2g.skip_parens(s).get("castKind") == "ToVoid" and sl.strip(c2g.skip_parens(s)["inner"][0]).get("kind") == "CallExpr":
+                call = sl.strip(c2g.skip_parens(s)["inner"][0])       # `(void) f (..)`: the call happens, its result is dropped
             elif k in ("ParenExpr", "CStyleCastExpr", "ImplicitCastExpr") and sl.strip(s).get("kind") == "CallExpr" and not self.is_noop(s):
                 call = sl.strip(s)
             elif k == "BinaryOperator" and s.get("opcode") == "=" and sl.strip(s["inner"][1]).get("kind") == "CallExpr":
